@@ -29,9 +29,20 @@ type exifCase struct {
 // drawExifCase draws the record, the foreign tags and the layout parameters. The result is
 // byte-order independent; build() serialises it for one byte order.
 func drawExifCase(r *core.Rng, slotty bool, boundary bool) *exifCase {
-	rec := gen.GenExifRec(r, gen.RecOpts{Slotty: slotty, LongStrings: r.Chance(1, 3)})
+	opts := gen.RecOpts{Slotty: slotty, LongStrings: r.Chance(1, 3)}
+	bigNote := r.Chance(1, 50)
+	if bigNote {
+		// a Nikon file with a large maker note (82 out-of-line entries of its own) and little else:
+		// the note passes through the reader's pending table and must leave it empty for the GPS
+		// directory behind it
+		opts = gen.RecOpts{Density: 12, NikonBigNote: true}
+	}
+	rec := gen.GenExifRec(r, opts)
 	class := "plain"
 	nf0, nfx, nfg := r.Intn(8), r.Intn(8), r.Intn(4)
+	if bigNote {
+		nf0, nfx, nfg, boundary = 0, 0, 0, false
+	}
 	big := r.Chance(1, 5)
 	invalid := r.Chance(1, 2)
 	if boundary {
@@ -68,6 +79,10 @@ func drawExifCase(r *core.Rng, slotty bool, boundary bool) *exifCase {
 	ec.layout = gen.Layout{FirstOff: 8, MaxPad: r.Pick(0, 0, 1, 2, 7, 64), Order: r.Intn(3), RandomPad: r.Chance(1, 3)}
 	if r.Chance(1, 6) {
 		ec.layout.FirstOff = 8 + r.Range(1, 200)
+	}
+	if r.Chance(1, 40) {
+		// the first directory 64 KiB or more behind the header (writers that put image data first)
+		ec.layout.FirstOff = r.Pick(65535, 65536, 70000, 300000)
 	}
 	ec.layout.SlotFill = r.Chance(1, 4)
 	ec.desc = fmt.Sprintf("fields=%d foreign=%d/%d/%d class=%s order=%d pad=%d first=%d %s", len(rec.Exp.Names), nf0, nfx, nfg, class, ec.layout.Order, ec.layout.MaxPad, ec.layout.FirstOff, rec.Note)
